@@ -39,7 +39,7 @@ def shards(pid, tier, seed):
                 {"mode": "random", "n": 4000}, {"mode": "linear", "n": 2000}, {"mode": "inplace", "n": 1500},
                 {"mode": "detect", "lens": list(range(1, 13)), "rand": 300}]
     out = [{"mode": "pairs"}, {"mode": "fold", "n": 3000}]
-    out += [{"mode": "random", "n": 40000} for _ in range(5)]
+    out += [{"mode": "random", "n": 150000} for _ in range(6)]
     out += [{"mode": "linear", "n": 40000} for _ in range(2)]
     out += [{"mode": "inplace", "n": 40000} for _ in range(2)]
     lens = list(range(1, 41))
